@@ -390,6 +390,31 @@ def underscore_species(ctx):
         ctx.count("underscore_species_cases")
 
 
+def lineage_event_rates(ctx):
+    """the rate of a lineage event written as a formula in `volume`: a volume event `volume + 1` at the rate
+    40 (volume - 1) max(0, 4 - volume), a cell that starts at volume 2.  The rate is 80 at volumes 2 and 3 and 0 at 4, so within
+    two time units the volume is 4 and stays there - through the plain and through the safe lineage interface (the same
+    formula read with `volume` = 1 gives the rate 0: nothing would ever happen)."""
+    from bioscrape.random import py_seed_random
+    from bioscrape.lineage import LineageModel, LineageSSASimulator, LineageVolumeCellState
+    for seed in (11, 12):
+        for safe in (False, True):
+            case = {"scenario": "lineage event rate in volume", "safe": safe, "seed": seed}
+            ctx.begin_case(case)
+            py_seed_random(seed)
+            m = LineageModel(species=["A"], reactions=[([], ["A"], "massaction", {"k": 1.0})], initial_condition_dict={"A": 0})
+            m.create_volume_event("general", {"equation": "volume + 1"}, "general", {"rate": "40*(volume - 1)*max(0, 4 - volume)"})
+            m.py_initialize()
+            v = LineageVolumeCellState(v0=2.0, t0=0, state=m.get_species_array())
+            res = LineageSSASimulator().py_SimulateSingleCell(np.linspace(0, 2.0, 201), Model=m, v=v, safe=safe)
+            vol = float(np.asarray(res.py_get_volume())[-1])
+            ctx.evaluated()
+            if abs(vol - 4.0) > 1e-9:
+                ctx.violation("lineage-event-rate/volume", "volume event at the rate 40 (volume - 1) max(0, 4 - volume) from volume 2 (safe=%s): the volume ends at %g, not 4" % (safe, vol), case)
+                return
+            ctx.count("lineage_event_rate_runs")
+
+
 def growth_law_traces(ctx, rng):
     """a growth law that mentions t, used by the simulators that carry a volume: at every volume tick the law is evaluated at
     the time the tick ends, so V(t_n) = V(t_{n-1}) * exp(g(t_n) * dt).  Nothing random happens (the only reaction has rate
@@ -456,6 +481,7 @@ def run(ctx):
     underscore_alias(ctx)
     growth_law_traces(ctx, rng)
     underscore_species(ctx)
+    lineage_event_rates(ctx)
 
 
 def replay(ctx, obj):
